@@ -5,11 +5,12 @@ Import ListNotations.
 
 Section Rel.
 Variable sf : key -> sid.
+Variable KP : list key -> Prop.
 Notation holderK := (holderK sf).
 Notation maxK := (maxK sf).
-Notation inv := (inv sf).
+Notation inv := (inv sf KP).
 
-Ltac dinv I := destruct I as [i_q0 i_sorted0 i_acq0 i_hold0 i_role0 i_wait0 i_wnd0 i_wl_nd0 i_wl0 i_rel0 i_chan_nd0 i_chan0 i_started0 i_maxsrc0 i_relpc0 i_stale0 i_live0 i_acqok0].
+Ltac dinv I := destruct I as [i_q0 i_sorted0 i_hnd0 i_acq0 i_hold0 i_role0 i_wait0 i_wnd0 i_wl_nd0 i_wl0 i_rel0 i_chan_nd0 i_chan0 i_started0 i_maxsrc0 i_relpc0 i_stale0 i_live0 i_acqok0].
 Ltac xi x i := destruct (Nat.eqb_spec x i) as [?E|?NE]; [try subst x | ].
 
 Lemma rel_pre_facts L rl wl ch st i k a :
@@ -23,7 +24,7 @@ Proof.
   { unfold held. rewrite A. apply firstn_S_nth; auto. }
   repeat split; auto.
   - apply i_hold0. rewrite H. apply in_or_app. right. left. auto.
-  - eapply sorted_prefix_notin; eauto.
+  - apply nodup_snoc_notin. rewrite <- H. apply i_hnd0.
   - intros s X. destruct (i_wait0 s i X). congruence.
   - intros X. destruct (i_wl0 i X). congruence.
   - apply nth_error_Some. congruence.
@@ -106,6 +107,7 @@ Proof.
   constructor.
   - exact Q'.
   - intros x. xi x i; [rewrite LKI; simpl; apply i_sorted0 | rewrite (LKX x) by auto; apply i_sorted0].
+  - intros x. xi x i; [rewrite HI'; apply (nodup_app_l _ [k]); rewrite <- HI; apply i_hnd0 | rewrite (LKX x) by auto; apply i_hnd0].
   - intros x. xi x i; [rewrite LKI; simpl; lia | rewrite (LKX x) by auto; apply i_acq0].
   - intros x k0. rewrite HH. xi x i.
     + rewrite HI'. destruct (N.eqb_spec k0 k) as [->|NK].
@@ -215,6 +217,12 @@ Proof.
   constructor.
   - exact Q'.
   - intros x. rewrite KEYS. apply i_sorted0.
+  - intros x. xi x i; [rewrite HI'; apply (nodup_app_l _ [k]); rewrite <- HI; apply i_hnd0|].
+    destruct (Nat.eq_dec x w) as [->|N2]; [|rewrite LKX by auto; apply i_hnd0].
+    destruct OUT as [(_ & B & _)|(B & _)].
+    + assert (HW : held (locks L' w) = held lw ++ [k]) by (unfold held; rewrite LKW, B, UK; apply firstn_S_nth; exact KW).
+      rewrite HW. apply nodup_snoc; [apply i_hnd0|]. intros X. apply i_hold0 in X. congruence.
+    + rewrite LKW, B. apply i_hnd0.
   - intros x. rewrite KEYS. xi x i; [rewrite LKI; simpl; fold li; lia|].
     destruct (Nat.eq_dec x w) as [->|N2]; [|rewrite LKX by auto; apply i_acq0].
     rewrite LKW. destruct OUT as [(_ & B & _)|(B & _)].
